@@ -31,7 +31,7 @@ def main():
         for n in names:
             meta = json.load(open(os.path.join(VERIF, "seeded", n, "meta.json")))
             prop = meta["property"]
-            sh("git", "-C", WT, "checkout", "--", ".")
+            sh("git", "-C", WT, "reset", "--hard", "-q", "HEAD")
             sh("git", "-C", WT, "clean", "-fdq")
             a = sh("git", "-C", WT, "apply", os.path.join(VERIF, "seeded", n, "patch.diff"))
             if a.returncode:      # the tree has moved on since the change was written: fall back to a three-way merge
